@@ -13,7 +13,7 @@ demo="$src/demo_test.go"
 pkgdir=$(head -3 "$demo" | grep -oE '[a-z0-9_/]+(/[a-z0-9_]+)*' | grep -E '^(types|contract|state|fee|pkg|p2p|config|internal|account|consensus)' | head -1)
 [ -n "${4:-}" ] && pkgdir="$4"
 [ -d "$wt/$pkgdir" ] || { echo "cannot determine package dir from demo header (got '$pkgdir')"; exit 2; }
-tname=$(grep -oE 'func (TestSeeded[A-Za-z0-9_]+)' "$demo" | head -1 | awk '{print $2}')
+tname=$(grep -oE 'func (TestSeed(ed|2)[A-Za-z0-9_]+)' "$demo" | head -1 | awk '{print $2}')
 cp "$demo" "$wt/$pkgdir/zz_seeded_demo_test.go"
 cd "$wt"
 r1=$(go test -vet=off -count=1 -run "^${tname}\$" "./$pkgdir/" 2>&1 | tail -3)
